@@ -13,25 +13,29 @@ EXTENDS Indent, TLC, TLCExt, Json, IOUtils
 Traces  == ndJsonDeserialize(IOEnv.TRACE_FILE)
 Explain == "EXPLAIN" \in DOMAIN IOEnv /\ IOEnv.EXPLAIN = "1"
 
-VARIABLES t, l, hdr, lines
-vars == <<t, l, hdr, lines>>
+VARIABLES t, l, hdr, lines, ind
+vars == <<t, l, hdr, lines, ind>>
 
 Ev == Traces[t].events
 CommentCfg == [tab |-> FALSE, n |-> 3, mode |-> "all", glyph |-> <<47, 47>>]
+DefaultCfg == [tab |-> FALSE, n |-> 4, mode |-> "none", glyph |-> <<>>]
 
-TInit == t \in DOMAIN Traces /\ l = 1 /\ hdr = <<>> /\ lines = <<>>
+TInit == t \in DOMAIN Traces /\ l = 1 /\ hdr = <<>> /\ lines = <<>> /\ ind = DefaultCfg
 
 \* state change prescribed by the model for event e
 Effect(e) ==
   CASE e.op \in {"new", "comment"} ->
          /\ hdr' = (IF e.op = "new" /\ Truthy(e.h) THEN AppendLines(e.h) ELSE <<>>)
          /\ lines' = AppendLines(e.c)
-    [] e.op \in {"append", "iadd"} -> lines' = lines \o AppendLines(e.c) /\ UNCHANGED hdr
-    [] e.op = "add"     -> lines' = lines \o AppendLines(e.c) /\ hdr' = <<>>
-    [] e.op = "trim"    -> lines' = TrimLines(lines, e.endOnly) /\ UNCHANGED hdr
-    [] e.op = "indent"  -> lines' = ToList(e.cfg, lines) /\ UNCHANGED hdr
-    [] e.op = "setlines" -> lines' = e.ls /\ UNCHANGED hdr
-    [] OTHER -> UNCHANGED <<hdr, lines>>            \* observations: str, render, functions
+         /\ ind' = (IF e.op = "comment" THEN CommentCfg ELSE DefaultCfg)
+    [] e.op \in {"append", "iadd"} -> lines' = lines \o AppendLines(e.c) /\ UNCHANGED <<hdr, ind>>
+    [] e.op = "add"     -> lines' = lines \o AppendLines(e.c) /\ hdr' = <<>> /\ ind' = DefaultCfg
+    [] e.op = "trim"    -> lines' = TrimLines(lines, e.endOnly) /\ UNCHANGED <<hdr, ind>>
+    [] e.op = "indent"  -> lines' = ToList(e.cfg, lines) /\ ind' = e.cfg /\ UNCHANGED hdr
+    [] e.op = "indentbare" -> lines' = ToList(ind, lines) /\ UNCHANGED <<hdr, ind>>
+    [] e.op = "setind"  -> ind' = e.cfg /\ UNCHANGED <<hdr, lines>>
+    [] e.op = "setlines" -> lines' = e.ls /\ UNCHANGED <<hdr, ind>>
+    [] OTHER -> UNCHANGED <<hdr, lines, ind>>            \* observations: str, render, functions
 
 \* what the model says the observable result of event e is (in the state after the event)
 Expected(e) ==
